@@ -182,7 +182,9 @@ class WSGIContainer:
 
         status_code_str, reason = data["status"].split(" ", 1)
         status_code = int(status_code_str)
-        headers: list[tuple[str, str]] = data["headers"]
+        # Work on a copy: the defaults added below must not end up in a
+        # list the application may pass to start_response again.
+        headers: list[tuple[str, str]] = list(data["headers"])
         header_set = {k.lower() for (k, v) in headers}
         body = escape.utf8(body)
         if status_code != 304:
